@@ -87,6 +87,51 @@ class _NpProxy(types.ModuleType):
 NP = _NpProxy()
 
 
+class TextStub(object):
+    """stand-in for the text layer of json / ruamel.yaml (C library code): dump keeps a structural deep copy
+    (OrderedDict -> dict with str keys, tuples -> lists; non-finite floats rejected like allow_nan=False),
+    load returns it.  What is exchanged is an opaque token string."""
+    _REG = {}
+
+    def __init__(self, kind):
+        self.kind = kind
+
+    @classmethod
+    def _copy(cls, x):
+        if isinstance(x, dict):
+            return {str(k): cls._copy(v) for k, v in x.items()}
+        if isinstance(x, (list, tuple)):
+            return [cls._copy(v) for v in x]
+        if isinstance(x, builtins.float) and (math.isinf(x) or math.isnan(x)):
+            raise ValueError("Out of range float values are not JSON compliant")
+        if isinstance(x, (str, int, builtins.float, bool, SymReal)) or x is None:
+            return x
+        if isinstance(x, (_real_np.floating, _real_np.integer)):
+            return x.item()
+        raise TypeError("Object of type %s is not serializable" % type(x).__name__)
+
+    def _token(self, obj):
+        t = "<%s-document-%d>" % (self.kind, len(self._REG))
+        self._REG[t] = self._copy(obj)
+        return t
+
+    def dumps(self, obj, **kw):
+        return self._token(obj)
+
+    def loads(self, doc):
+        return self._copy(self._REG[doc])
+
+    def dump(self, obj, stream=None, **kw):
+        t = self._token(obj)
+        if stream is None:
+            return t
+        stream.write(t)
+
+    def load(self, stream):
+        doc = stream.read() if hasattr(stream, "read") else stream
+        return self._copy(self._REG[doc])
+
+
 def _rebind(module, name, value):
     key = (module.__name__, name)
     if key not in _ORIG:
@@ -144,6 +189,10 @@ def install(mode, solver="glpk"):
         _rebind(cobra.util.solver, "float", Float)
         _rebind(cobra.util.solver, "Basic", basic)
         _rebind(cobra.core.model, "Basic", basic)
+        import cobra.io.json
+        import cobra.io.yaml
+        _rebind(cobra.io.json, "json", TextStub("json"))
+        _rebind(cobra.io.yaml, "yaml", TextStub("yaml"))
     else:
         _restore_all()
         cfg.solver = solver
